@@ -2819,7 +2819,7 @@ SKIP_HSHEADER_PARSE:
             psTraceErrr("Invalid NewSessionTicket message\n");
             return MATRIXSSL_ERROR;
         }
-        ssl->sid->sessionTicketLifetimeHint = *c << 24; c++;
+        ssl->sid->sessionTicketLifetimeHint = (uint32) *c << 24; c++;
         ssl->sid->sessionTicketLifetimeHint |= *c << 16; c++;
         ssl->sid->sessionTicketLifetimeHint |= *c << 8; c++;
         ssl->sid->sessionTicketLifetimeHint |= *c; c++;
